@@ -93,7 +93,7 @@ CHECK_DEADLOCK FALSE
 
 def _variant(i):
     """which concretisation case number i gets (deterministic)"""
-    kinds = ('vars', 'vars', 'rev', 'ssi', 'vars', 'lit', 'vars', 'revx', 'vars', 'rv0', 'vars')
+    kinds = ('vars', 'pfx', 'rev', 'ssi', 'vars', 'lit', 'vars', 'revx', 'pfx', 'rv0', 'vars')
     return kinds[i % 11], ('tuple' if i % 5 == 3 else 'list'), (i % 2 == 1)
 
 
